@@ -98,7 +98,9 @@ SvgCells(reg, n, vals, o) ==
 SvgLayerColors(reg, o) == \A i \in DOMAIN o.layers : i <= Len(LayersOf(reg)) => o.layers[i].fill = LayerColor(reg, LayersOf(reg)[i]).txt
 \* XML attribute-value normalisation: a literal TAB, LF or CR inside an attribute is read back as a space by every
 \* conforming parser; the property's domain (URLs, data URIs, paths, XML-special characters) does not ask for more
-AttrNormalize(s) == [i \in 1..Len(s) |-> IF s[i] \in {9, 10, 13} THEN 32 ELSE s[i]]
+\* (line ends are normalised first: the CR of a CR LF pair disappears, then TAB / LF / CR each read back as one space)
+AttrNormalize(s) == FoldLeft(LAMBDA acc, i : IF s[i] = 13 /\ i < Len(s) /\ s[i+1] = 10 THEN acc
+                                               ELSE Append(acc, IF s[i] \in {9, 10, 13} THEN 32 ELSE s[i]), <<>>, Range1(Len(s)))
 SvgImage(reg, o) == IF reg.hasImage THEN Len(o.images) = 1 /\ o.images[1].href = AttrNormalize(reg.image) ELSE Len(o.images) = 0
 
 (* ---------------- C18: frame geometry, milli-modules ---------------- *)
